@@ -470,3 +470,6 @@ class World:
             pymap_context.subsystem.reset(self._tok)
         except Exception:
             pass
+        if self.backend_kind == 'maildir':
+            from . import maildirsrv
+            maildirsrv.cleanup(self)
